@@ -150,22 +150,7 @@ def null_pos(t):
     return "none"
 
 
-def nary_spec(term, rng=None):
-    """binary tree -> spec with same-operator left chains flattened into one list
-    (`{'and': [x, y, z]}` is the left fold and(and(x, y), z))"""
-    c = term["c"]
-    if c == "null":
-        return {}
-    if c == "leaf":
-        return build.leaf_spec(term, build.Spelling())
-    items = [term["b"]]
-    t = term["a"]
-    while t["c"] == c and (rng is None or rng.random() < 0.7):
-        items.append(t["b"])
-        t = t["a"]
-    items.append(t)
-    items.reverse()
-    return {c: [nary_spec(i, rng) for i in items]}
+nary_spec = build.nary_spec
 
 
 class Reg:
